@@ -61,7 +61,6 @@ package filesystem
 // private keys are written only as the output of the target's own key encryptor under the key's own context.
 //@ func (store *KeyBackuper) Import(backup *keystore.KeysBackup) (descs []keystore.KeyDescription, err error)
 //@   props C18
-//@   safety
 //@   ensures rejected-without-writing: ret(keystore.NewSCellKeyEncryptor)[1] != nil || (called(SCellKeyEncryptor.Decrypt) && ret(SCellKeyEncryptor.Decrypt)[1] != nil) || (called(gob.Decoder.Decode) && ret(gob.Decoder.Decode)[0] != nil) ==> err != nil && descs == nil && !called(Storage.WriteFile) && !called(Storage.MkdirAll)
 //@   ensures whole-or-nothing: err != nil ==> descs == nil
 //@   loop 0 step private-keys-reencrypted: itercalled(Storage.WriteFile) && ret(isPrivate)[0] ==> itercalled(KeyEncryptor.Encrypt) && ret(KeyEncryptor.Encrypt)[1] == nil && sameslice(argof(Storage.WriteFile)[1], ret(KeyEncryptor.Encrypt)[0])
